@@ -36,7 +36,7 @@ class C20(Prop):
     id = 'C20'
     struct_inputs = False          # explanations are keyed by variable name
     reparse_histories = False      # explain() also reports on the assertions of earlier parse() calls on the object
-    rule_added = '10%: every Boolean connective under both polarities over a range (always(not P), eventually(not P), always(P implies r), ... with P = p(x) OP q(y)). In every run 8 (thorough: 320) long traces of 130..400 samples on which a variable occurring 2-3 times toggles around its thresholds (hundreds of separate intervals per occurrence). 20% of the cases put a temporal operator behind two Boolean filters under a range context (it must explain several disjoint intervals). 12%: a named sub-specification referenced from several places of one assertion (modular specification). 6%: rise/fall over a compound operand behind a window that starts at b >= 1.'
+    rule_added = 'A third of the objects have evaluated and explained an earlier recording that shares the time list with the judged one. 10%: every Boolean connective under both polarities over a range (always(not P), eventually(not P), always(P implies r), ... with P = p(x) OP q(y)). In every run 8 (thorough: 320) long traces of 130..400 samples on which a variable occurring 2-3 times toggles around its thresholds (hundreds of separate intervals per occurrence). 20% of the cases put a temporal operator behind two Boolean filters under a range context (it must explain several disjoint intervals). 12%: a named sub-specification referenced from several places of one assertion (modular specification). 6%: rise/fall over a compound operand behind a window that starts at b >= 1.'
     rule = ('random formulas of the fragment the explainer supports (no since/until; arithmetic, predicates, Boolean, '
             'rise/fall, prev/next, bounded and unbounded once/historically/eventually/always; depth<=4; variables '
             'occurring several times) x traces of 2..6 samples on StlDiscreteTimeOfflineSpecification: evaluate(); if '
@@ -337,7 +337,21 @@ class C20(Prop):
             v.info['class:modular'] = 1
         try:
             m = drive.Mon('dt_off', sd)
-            res = m.evaluate(drive.dt_dataset(data))
+            ds = drive.dt_dataset(data)
+            if (len(text) + n) % 3 == 0 and n >= 2:
+                # the object has evaluated and explained an earlier recording on the SAME time axis (one shared list
+                # object, as when a data dictionary is edited in place between two recordings)
+                import random as _r
+                r0 = _r.Random(len(text) * 131 + n)
+                d0 = dict((k, [r0.choice(col) for _ in col]) for k, col in ds.items() if k != 'time')
+                d0['time'] = ds['time']
+                try:
+                    m.evaluate(d0)
+                    m.explain()
+                    v.info['class:earlier-recording-explained-on-the-same-time-axis'] = 1
+                except Exception:
+                    m = drive.Mon('dt_off', sd)
+            res = m.evaluate(ds)
         except Exception as e:
             v.skip = 'evaluate raised %s' % type(e).__name__
             return v
